@@ -83,7 +83,7 @@ Fixpoint insertZ (z : Z) (l : list Z) : list Z :=
   match l with [] => [z] | x :: r => if (z <=? x)%Z then z :: l else x :: insertZ z r end.
 Definition sortZ (l : list Z) : list Z := fold_right insertZ [] l.
 Definition select (pool : list val) (idx : list Z) : list val :=
-  map (fun z => nth (Z.to_nat z) pool VNone) (sortZ idx).
+  map (fun z => nth (Z.to_nat z) pool (hd VNone pool)) (sortZ idx).
 Definition rcwr (pool : list val) (r : nat) (k : list val -> gp) : gp :=
   match pool with
   | [] => GAbort        (* randrange(0): ValueError in CPython; unreachable where the callers guard `if not values` *)
